@@ -132,6 +132,10 @@ pub struct Ctx<'t> {
     pub verbose: bool,
     pub retain_calls: u32,
     pub retain_panic_at: u32,
+    /// the run is judged for C15 (positions while exclusive-borrow strings are filled, dropped, finalised)
+    pub c15: bool,
+    /// a string holds invalid UTF-8: using it any further is undefined behaviour, the run ends here
+    pub stop: bool,
 }
 
 pub enum Outcome<T> {
@@ -153,15 +157,18 @@ impl<'t> Ctx<'t> {
             verbose: std::env::var_os("SIM_VERBOSE").is_some(),
             retain_calls: 0,
             retain_panic_at: 0,
+            c15: trace.prop == "C15",
+            stop: false,
         }
     }
     pub fn viol(&mut self, class: &str, msg: String) {
         if self.viols.len() < 16 {
+            sim::runner::early_violation(class, self.cur_op, &msg);
             self.viols.push(Violation { class: class.to_string(), op_index: self.cur_op, msg });
         }
     }
     pub fn next_op(&mut self) -> Option<Op> {
-        if self.pc >= self.trace.ops.len() {
+        if self.pc >= self.trace.ops.len() || self.stop {
             return None;
         }
         self.cur_op = self.pc;
@@ -247,6 +254,7 @@ pub fn valid_range(r: R, s: &str) -> Option<(usize, usize)> {
 pub fn check_utf8<V: StrApi>(ctx: &mut Ctx, v: &V, what: &str) {
     if let Err(e) = std::str::from_utf8(v.bytes()) {
         ctx.viol("C09/invalid-utf8", format!("{what}: the string holds invalid UTF-8 ({e}); bytes {:?}", &v.bytes()[..v.bytes().len().min(24)]));
+        ctx.stop = true;
     }
 }
 
@@ -465,6 +473,9 @@ pub fn exec_common<V: StrApi>(ctx: &mut Ctx, v: &mut V, m: &mut String, op: &Op)
     ctx.drain_heap_errors();
     let what = format!("{} on {}", name, KIND_NAMES[V::KIND as usize]);
     check_utf8(ctx, v, &what);
+    if ctx.stop {
+        return;
+    }
     let fixed_full = V::KIND == SKind::Fixed && std_result.is_ok() && expect.len() > v.cap();
     match out {
         Outcome::Ok(ret) => match std_result {
